@@ -19,7 +19,7 @@ def gen(rng, i, tier):
     c["fseed"] = None
     c["take"] = None
     mode = rng.choice(["filter", "filter", "merge", "merge", "both"])
-    if not (B.enabled("C12-F5") and B.enabled("C12-F6")):
+    if not (B.enabled("C12-F12") and B.enabled("C12-F13")):
         mode = "filter"
     if mode in ("filter", "both"):
         c["filter"] = E.gen_filter(rng)
